@@ -7,6 +7,7 @@ from ..nf import Rat, C
 from ..source import Unsupported, AnchorError
 from ..xlate import Interp, Obj, ListV, DictV, Raised, RankOrder
 from .common import same, show
+from .rxnfix import make_reaction, get_public
 
 RX = 'pmutt.reaction'
 Z = '\x00'
@@ -69,11 +70,8 @@ def check(run, repo):
         R_ = [sp[k] for k in keys[:len(rs)]]
         P_ = [sp[k] for k in keys[len(rs):len(rs) + len(ps)]]
         T_ = [sp[k] for k in keys[len(rs) + len(ps):]]
-        rxn = Obj('rxn', ci, attrs={'_reactants': ListV(R_), '_reactants_stoich': ListV([C(x) for x in rs]),
-                                    '_products': ListV(P_), '_products_stoich': ListV([C(x) for x in ps]),
-                                    '_transition_state': ListV(T_) if ts else None,
-                                    '_transition_state_stoich': ListV([C(x) for x in ts]) if ts else None,
-                                    'notes': None})
+        rxn = make_reaction(I, repo, ci, R_, [C(x) for x in rs], P_, [C(x) for x in ps],
+                            T_ if ts else None, [C(x) for x in ts] if ts else None)
         label = 'delims=%r/%r stoich=%s|%s|%s space=%s fmt=%s' % (sd, rd, rs, ps, ts, space, fmt)
         txt = I.call_method(rxn, 'to_string', [], {'species_delimiter': sd, 'reaction_delimiter': rd,
                                                    'stoich_space': space, 'stoich_format': fmt})
@@ -141,8 +139,8 @@ def check(run, repo):
                             self_obj=ci, owner=owner_fs)
         ok = isinstance(r, Obj)
         if ok:
-            got6 = [r.attrs.get(k_) for k_ in ('_reactants', '_reactants_stoich', '_products', '_products_stoich',
-                                                '_transition_state', '_transition_state_stoich')]
+            got6 = [get_public(I, r, k_) for k_ in ('reactants', 'reactants_stoich', 'products', 'products_stoich',
+                                                    'transition_state', 'transition_state_stoich')]
             for got, w in zip(got6, want):
                 if w is None:
                     ok = ok and got is None
@@ -171,7 +169,7 @@ def check(run, repo):
     # species given as a list
     r = I.call_function(owner_fs.module, fn_fs, [], {'reaction_str': A + '=' + B,
                                                      'species': ListV([sp[kA], sp[kB]])}, self_obj=ci, owner=owner_fs)
-    run.check(isinstance(r, Obj) and r.attrs['_reactants'].items[0] is sp[kA], 'REF.parse', 'Reaction.from_string',
+    run.check(isinstance(r, Obj) and get_public(I, r, 'reactants').items[0] is sp[kA], 'REF.parse', 'Reaction.from_string',
               'species list', 'a list of species is not accepted (%s)' % show(r), owner_fs.module, fn_fs)
 
     balance(run, repo, ci)
@@ -199,15 +197,12 @@ def balance(run, repo, ci):
         if case == 'element missing in products':
             del pel['B']
         p1 = Obj('p1', attrs={'elements': DictV(pel)})
-        attrs = {'_reactants': ListV([r1, r2]), '_reactants_stoich': ListV([n1, n2]),
-                 '_products': ListV([p1]), '_products_stoich': ListV([n3]),
-                 '_transition_state': None, '_transition_state_stoich': None}
+        t_side = None
         if ts_mode:
             tA = totA / n4 if ts_mode == 'balanced' else (totA - 1) / n4
             t1 = Obj('t1', attrs={'elements': DictV({'A': tA, 'B': totB / n4})})
-            attrs['_transition_state'] = ListV([t1])
-            attrs['_transition_state_stoich'] = ListV([n4])
-        rxn = Obj('rxn', ci, attrs=attrs)
+            t_side = [t1]
+        rxn = make_reaction(I, repo, ci, [r1, r2], [n1, n2], [p1], [n3], t_side, [n4] if t_side else None)
         r = I.call_method(rxn, 'check_element_balance', [], {})
         should_raise = case != 'balanced' or ts_mode == 'unbalanced'
         run.check(isinstance(r, Raised) == should_raise and (not should_raise or r.exc == 'ValueError'),
